@@ -291,7 +291,8 @@ def F18_gmm_mean_shrink():
     g = GaussianMixture(n_components=1, random_state=1).fit(X)
     m = g.means_[0]
     lo, hi = X.min(0), X.max(0)
-    inside = bool(np.all(m >= lo) and np.all(m <= hi))
+    tol = 1e-12 * np.maximum(1.0, np.abs(lo))   # the defect was a 1e-10 relative shrink; rounding of the weighted mean is ~1e-16
+    inside = bool(np.all(m >= lo - tol) and np.all(m <= hi + tol))
     return {"fails": not inside, "detail": f"20 points with x0==5.0: fitted mean x0={m[0]!r} (bbox [{lo[0]!r},{hi[0]!r}])"}
 
 
@@ -332,6 +333,28 @@ def F20_syst_count_in_tolerance_band():
     r = _syst(2, w, 0.0)
     copies1 = r.count(1) if isinstance(r, list) else None
     return {"fails": copies1 != 2, "detail": f"n=2, w=[2^-30, 1.0] (sum-1=9.3e-10 < sqrt(eps): not renormalised), u0=0 -> {r}: index 1 copied {copies1} time(s), n*w_1 = 2 exactly"}
+
+
+# ---------------------------------------------------------------- C03 / F21
+def F21_reflective_correlated():
+    """RWM, d=2, both coordinates reflective, correlated mode covariance (rho=0.9), uniform target: the mirrored increment
+    is not the increment of the reverse move -> mass moves from the anti-diagonal corners to the diagonal ones"""
+    from . import c03
+    r = c03.one_step_cell_2d("rwm", "reflective", 0.9, 0.5, 200320, n=200000)
+    detail = (f"rwm x reflective=[0,1], d=2, cov=(1/12)[[1,.9],[.9,1]], uniform target, sigma=0.5, seed=200320, N=200000: one step "
+              f"moves the 5x5 histogram to chi2={r['chi2']:.1f} (threshold {r['threshold']:.1f} = p<1e-9; before the step "
+              f"{r['chi2_before']:.1f}); corner bins after/expected: {r['corner_ratio']}")
+    return {"fails": bool(r["fails"]), "detail": detail}
+
+
+# ---------------------------------------------------------------- C15 / F22
+def F22_gmm_init_underflow():
+    from tempest.cluster import GaussianMixture
+    with warnings.catch_warnings():
+        warnings.simplefilter("ignore")
+        g = GaussianMixture(n_components=1, random_state=0).fit(np.array([[0.0], [0.0], [40.0], [40.0]]))
+    bad = bool(np.any(~np.isfinite(g.weights_)) or np.any(~np.isfinite(g.means_)) or abs(float(np.sum(g.weights_)) - 1.0) > 1e-9)
+    return {"fails": bad, "detail": f"GaussianMixture(1).fit([[0],[0],[40],[40]]): weights_={g.weights_.tolist()}, means_={g.means_.ravel().tolist()}"}
 
 
 ALL = {k: v for k, v in list(globals().items()) if k[:1] == "F" and callable(v)}
